@@ -33,6 +33,13 @@ CLAIMED["C18"] = dict(
     ref="DESIGN.md 4/C18",
 )
 
+CLAIMED["C01"] = dict(
+    technique="StateFlow definite-assignment of the structure checks' preconditions; must/may event flow (recording bracket, bookkeeping must-pass-through, dominance of checks); call-graph reachability of a conditional raise site per rule; exact DFA comparison of each level ordering pattern under the extracted automaton construction",
+    text="Decides necessary structural conditions of the accept-iff-conformant property on all paths: every structure check has its preconditions, each of the 23 structure rules keeps a reachable conditional raise site, sequence-header recording brackets all reads and is compared, A1 side conditions, bookkeeping updates on every path, and the language each level ordering pattern has under the construction the code performs. Does not decide the arithmetic of the comparisons nor acceptance of particular streams.",
+    note="Trusted: vcheck.regex; axiom A1 with machine-checked side conditions; ParseCodes from vc2_data_tables. Known finding K1b (levels 1-7 pattern accepts pictures mixed with fragments).",
+    ref="DESIGN.md 4/C01",
+)
+
 NOT_APPLICABLE = {
     "C12": "arithmetic over unbounded integers (quantisation error bounds, monotonicity of a rational formula): no structural clause; needs algebra/solver or execution",
     "C13": "partition/telescoping identities of floor arithmetic on runtime sizes; the functions are spec-pinned arithmetic with nothing to decide from code shape",
